@@ -16,8 +16,8 @@ package routine
 //	boretry <mode> <fails>
 //
 // runs a routine that fails <fails> times and then succeeds in a RoutineContainer built with
-// routine.WithRetry(conf): mode 0 conf = nil (no retry), 1 a real exponential configuration (1 ms, no
-// max_elapsed_time), 2 a real constant configuration (1 ms); logs how often it ran (`boruns present fails runs`).
+// routine.WithRetry(conf) (modes: see retryConf); logs the configuration and how often the routine ran
+// (`boruns nil|<k i m x r e c> fails runs`).
 
 import (
 	"context"
@@ -58,12 +58,16 @@ func execBackoff(script []string, opt comp.Options) (res comp.Result) {
 		if len(f) == 3 && f[0] == "boretry" {
 			mode, _ := strconv.Atoi(f[1])
 			fails, _ := strconv.Atoi(f[2])
-			if mode < 0 || mode > 2 || fails < 0 || fails > 4 {
+			if mode < 0 || mode > 7 || fails < 0 || fails > 4 {
 				continue
 			}
-			runs := retryRuns(mode, fails)
+			if (mode == 3 || mode == 5) && fails > 1 {
+				fails = 1 // default intervals (800 ms): keep the scenario short
+			}
+			conf, desc := retryConf(mode)
+			runs := retryRuns(mode, conf, fails)
 			tags.Add(fmt.Sprintf("with-retry-%d", mode))
-			log.Add("boruns %d %d %d", b2i(mode != 0), fails, runs)
+			log.Add("boruns %s %d %d", desc, fails, runs)
 			continue
 		}
 		if len(f) < 8 || f[0] != "bo" {
@@ -141,19 +145,44 @@ func execBackoff(script []string, opt comp.Options) (res comp.Result) {
 	return comp.Result{History: log.Lines(), Tags: tags.List()}
 }
 
-// retryRuns builds a RoutineContainer with routine.WithRetry and counts the runs of a routine that fails
-// `fails` times before it succeeds.
-func retryRuns(mode, fails int) int {
+// retryConf is the configuration given to routine.WithRetry in mode m, and how it is logged (`nil` or the seven
+// numbers of a `boconf` line): 0 nil; 1 / 2 explicit EXPONENTIAL / CONSTANT kind with 1 ms intervals; 3 the empty
+// message; 4 kind unset with exponential parameters; 5 kind unset with constant parameters only (Construct builds
+// the exponential backoff in 3-5); 6 = 4 after an earlier WithBackoff option; 7 = nil after an earlier WithBackoff.
+func retryConf(m int) (*backoff.Backoff, string) {
 	var conf *backoff.Backoff
-	switch mode {
+	switch m {
 	case 1:
 		conf = &backoff.Backoff{BackoffKind: backoff.BackoffKind_BackoffKind_EXPONENTIAL,
 			Exponential: &backoff.Exponential{InitialInterval: 1, Multiplier: 1, MaxInterval: 2}}
 	case 2:
 		conf = &backoff.Backoff{BackoffKind: backoff.BackoffKind_BackoffKind_CONSTANT, Constant: &backoff.Constant{Interval: 1}}
+	case 3:
+		conf = &backoff.Backoff{}
+	case 4, 6:
+		conf = &backoff.Backoff{Exponential: &backoff.Exponential{InitialInterval: 1, Multiplier: 1, MaxInterval: 2}}
+	case 5:
+		conf = &backoff.Backoff{Constant: &backoff.Constant{Interval: 1}}
 	}
+	if conf == nil {
+		return nil, "nil"
+	}
+	e, c := conf.GetExponential(), conf.GetConstant()
+	return conf, fmt.Sprintf("%d %d %d %d %d %d %d", conf.GetBackoffKind(), e.GetInitialInterval(),
+		int64(math.Round(float64(e.GetMultiplier())*1000)), e.GetMaxInterval(),
+		int64(math.Round(float64(e.GetRandomizationFactor())*1000)), e.GetMaxElapsedTime(), c.GetInterval())
+}
+
+// retryRuns builds a RoutineContainer with routine.WithRetry(conf) — in modes 6 and 7 after a WithBackoff option —
+// and counts the runs of a routine that fails `fails` times before it succeeds.
+func retryRuns(mode int, conf *backoff.Backoff, fails int) int {
 	var cnt atomic.Int32
-	rc := rt.NewRoutineContainer(rt.WithRetry(conf))
+	var opts []rt.Option
+	if mode >= 6 {
+		opts = append(opts, rt.WithBackoff(cbackoff.NewConstantBackOff(time.Millisecond)))
+	}
+	opts = append(opts, rt.WithRetry(conf))
+	rc := rt.NewRoutineContainer(opts...)
 	rc.SetRoutine(func(ctx context.Context) error {
 		if int(cnt.Add(1)) <= fails {
 			return errors.New("fail")
@@ -164,10 +193,10 @@ func retryRuns(mode, fails int) int {
 	defer cancel()
 	rc.SetContext(ctx, false)
 	want := 1
-	if mode != 0 {
+	if conf != nil {
 		want = fails + 1
 	}
-	deadline := time.Now().Add(2 * time.Second)
+	deadline := time.Now().Add(2500 * time.Millisecond)
 	for int(cnt.Load()) < want && time.Now().Before(deadline) {
 		time.Sleep(200 * time.Microsecond)
 	}
@@ -192,7 +221,8 @@ func genBackoff(rng *rand.Rand, tier string) []string {
 		out = append(out, line)
 	}
 	if rng.Intn(3) == 0 {
-		out = append(out, fmt.Sprintf("boretry %d %d", rng.Intn(3), rng.Intn(4)))
+		m := []int{0, 1, 2, 4, 4, 6, 7, 1, 2, 3, 5}[rng.Intn(11)]
+		out = append(out, fmt.Sprintf("boretry %d %d", m, rng.Intn(4)))
 	}
 	return out
 }
@@ -210,6 +240,8 @@ func init() {
 			{"bo 2 0 0 0 0 0 0 0 5000000", "bo 2 0 0 0 0 0 7 1000000", "bo 3 0 0 0 250 0 0 1000000"},
 			// routine.WithRetry with real configurations, and with nil
 			{"boretry 1 3", "boretry 0 2", "boretry 2 2", "boretry 1 0", "boretry 0 0"},
+			// a configuration whose kind is unset is an exponential one, not "no retry"; a later WithRetry replaces an earlier WithBackoff
+			{"boretry 4 3", "boretry 3 1", "boretry 5 1", "boretry 6 2", "boretry 7 2"},
 		},
 	})
 }
